@@ -71,7 +71,7 @@ Definition should_use_lsh (mode : Z) (fragment_count auto_threshold : Z) : bool 
   let thr := if auto_threshold =? 0 then 500 else auto_threshold in thr <=? fragment_count.
 
 (* ---------------------------------------------------------------------------------- *)
-(* clone_detector.go:518 shouldIncludeFragment *)
+(* clone_detector.go:534 shouldIncludeFragment *)
 Definition should_include (c : cfg) (f : frag) : bool :=
   if clone_include_cmp_nodes (f_size f) (c_min_nodes c) then false
   else if clone_include_cmp_lines (f_lines f) (c_min_lines c) then false else true.
@@ -79,12 +79,12 @@ Definition should_include (c : cfg) (f : frag) : bool :=
 (* extractFragmentsRecursive keeps the traversal order of the candidates *)
 Definition extract (c : cfg) (cands : list frag) : list frag := filter (should_include c) cands.
 
-(* clone_detector.go:1081 isOverlappingLocation *)
+(* clone_detector.go:1097 isOverlappingLocation *)
 Definition overlapping (a b : frag) : bool :=
   if negb (f_file a =? f_file b)%N then false
   else negb (clone_overlap_cmp1 (f_end a) (f_start b) || clone_overlap_cmp2 (f_end b) (f_start a)).
 
-(* clone_detector.go:895 shouldCompareFragments *)
+(* clone_detector.go:911 shouldCompareFragments *)
 Definition should_compare (a b : frag) : bool :=
   let size_diff := inject_Z (Z.abs (f_size a - f_size b)) in
   let avg := (inject_Z (f_size a + f_size b) / clone_sc_avg_div)%Q in
@@ -113,7 +113,7 @@ Definition jaccard_reject (a b : frag) : bool :=
   | _, _ => clone_Qlt (jaccard (f_feats a) (f_feats b)) analyzer_jaccardRejectionThreshold
   end.
 
-(* clone_detector.go:999 classifyCloneType *)
+(* clone_detector.go:1015 classifyCloneType *)
 Definition classify (c : cfg) (s : Q) : option ctype :=
   if clone_classify_cmp1 s (c_t1 c) then Some Type1
   else if clone_classify_cmp2 s (c_t2 c) then Some Type2
@@ -161,7 +161,7 @@ Variable sig : Z -> list N -> list N.
 (* FNV-64a of the concatenated band slice *)
 Variable bandhash : list N -> N.
 
-(* clone_detector.go:914 compareFragments + compareWithAPTED / compareFragmentsWithClassifier *)
+(* clone_detector.go:930 compareFragments + compareWithAPTED / compareFragmentsWithClassifier *)
 Definition compare (c : cfg) (a b : frag) : option cpair :=
   if negb (should_compare a b) then None
   else if jaccard_reject a b then None
@@ -171,7 +171,7 @@ Definition compare (c : cfg) (a b : frag) : option cpair :=
        | Some t => Some (Build_cpair a b (sim a b) (dist a b) t)
        end.
 
-(* clone_detector.go:1039 isSignificantClone *)
+(* clone_detector.go:1055 isSignificantClone *)
 Definition significant (c : cfg) (p : cpair) : bool :=
   if clone_sig_cmp_below (p_sim p) (effective_threshold c) then false
   else if clone_sig_cmp_distset (c_max_dist c) 0 && clone_sig_cmp_dist (p_dist p) (c_max_dist c) then false
@@ -185,19 +185,19 @@ Definition try_pair (c : cfg) (a b : frag) : list cpair :=
        | None => []
        end.
 
-(* clone_detector.go:802 detectClonePairsStandardWithContext *)
+(* clone_detector.go:818 detectClonePairsStandardWithContext *)
 Definition exhaustive (c : cfg) (fs : list frag) : list cpair :=
   flat_map (fun ab => try_pair c (fst ab) (snd ab)) (pairs_of fs).
 
-(* clone_detector.go:1165 limitAndSortClonePairs *)
+(* clone_detector.go:1181 limitAndSortClonePairs *)
 Definition limit_and_sort (c : cfg) (l : list cpair) : list cpair :=
   firstn (Z.to_nat (c_max_pairs c)) (sort_desc l).
 
-(* clone_detector.go:1117 tryCreateClonePair *)
+(* clone_detector.go:1133 tryCreateClonePair *)
 Definition try_create (c : cfg) (a b : frag) (min_similarity : Q) : list cpair :=
   filter (fun p => clone_try_cmp_min (p_sim p) min_similarity) (try_pair c a b).
 
-(* clone_detector.go:1140 addPairWithLimit *)
+(* clone_detector.go:1156 addPairWithLimit *)
 Definition add_with_limit (top : list cpair) (p : cpair) (maxp : Z) : list cpair :=
   if clone_add_cmp_room (Z.of_nat (length top)) maxp then insert_desc p top
   else match rev top with
@@ -219,18 +219,18 @@ Definition batch_step (c : cfg) (fs : list frag) (maxp : Z) (st : list cpair * Q
   | _, _ => st
   end.
 
-(* clone_detector.go:831 detectClonePairsWithBatchingContext *)
+(* clone_detector.go:847 detectClonePairsWithBatchingContext *)
 Definition batched (c : cfg) (fs : list frag) (max_pairs batch_size : Z) : list cpair :=
   let maxp := if max_pairs <=? 0 then clone_batch_default_maxPairs else max_pairs in
   let bs := if batch_size <=? 0 then clone_batch_default_batchSize else batch_size in
   fst (fold_left (batch_step c fs maxp) (batch_visits (Z.to_nat bs) (length fs)) ([], c_t4 c)).
 
-(* clone_detector.go:767 calculateBatchSize *)
+(* clone_detector.go:783 calculateBatchSize *)
 Definition calculate_batch_size (c : cfg) (n : Z) : Z :=
   if n <? c_batch_threshold c then n
   else if c_large_project c <? n then c_batch_small c else c_batch_large c.
 
-(* clone_detector.go:778 detectClonePairsWithContext *)
+(* clone_detector.go:794 detectClonePairsWithContext *)
 Definition detect_pairs (c : cfg) (fs : list frag) : list cpair :=
   let n := Z.of_nat (length fs) in
   if n <=? 1 then [] else
@@ -289,7 +289,7 @@ Definition lsh_pairs (c : cfg) (fs : list frag) : list cpair :=
   flat_map (fun ab => lsh_try c (fst (fst ab)) (fst (snd ab)))
            (filter (fun ab => share_keys (snd (fst ab)) (snd (snd ab))) (pairs_of keyed)).
 
-(* clone_detector.go:602 DetectClonesWithLSH *)
+(* clone_detector.go:618 DetectClonesWithLSH *)
 Definition detect_lsh (c : cfg) (fs : list frag) : list cpair :=
   if negb (c_use_lsh c) then detect_pairs c fs
   else if (length fs <=? 1)%nat then detect_pairs c fs
